@@ -279,7 +279,15 @@ def main():
         HandMadeZstd.window_log = int(case["zstd_window"])
         C.algorithm_class_map[P.FILTER_ZSTD] = (HandMadeZstd, C.algorithm_class_map[P.FILTER_ZSTD][1])
     try:
-        if case["phase"] == "write":
+        if case["phase"] == "write" and case.get("per_session"):
+            # one session per member (create, then append): every member gets a folder of its own, and an archive opened by name
+            # is then extracted by one worker per folder at the same time
+            for k, (size, texture) in enumerate(case["members"]):
+                with py7zr.SevenZipFile(arc, "w" if k == 0 else "a", filters=case["filters"], password=case.get("password"), **kw) as z:
+                    z.writef(Synthetic(size, texture, seed=case.get("seed", 1) * 1000 + k), f"m{k}")
+            events.append({"e": "wread", "n": 0, "block": 0})
+            events.append({"e": "wret", "held": 0})
+        elif case["phase"] == "write":
             with py7zr.SevenZipFile(arc, "w", filters=case["filters"], password=case.get("password"), **kw) as z:
                 if case.get("header_encryption"):
                     z.set_encrypted_header(True)
@@ -296,6 +304,11 @@ def main():
                         z.writestr(Synthetic(size, texture, seed=k).read(), f"m{k}")
                     else:  # write(path)
                         z.write(os.path.join(case["srcdir"], f"m{k}"), f"m{k}")
+                    if k in case.get("linkflag", []):
+                        # what a hostile (or merely odd) archive says: this member is a symbolic link, its content the link's target
+                        import stat as _st
+                        z.header.files_info.files[-1]["attributes"] = (_st.FILE_ATTRIBUTE_ARCHIVE | _st.FILE_ATTRIBUTE_REPARSE_POINT | 0x8000
+                                                                       | ((_st.S_IFLNK | 0o777) << 16))
                     held = max(held, sum(1 for fi in z.header.files_info.files if fi.get("data") is not None))
                 events.append({"e": "wread", "n": sat(maxread), "block": sat(block)})
                 events.append({"e": "wret", "held": held})
